@@ -408,7 +408,10 @@ namespace detail {
         {
             if (level2_ > 0)
             {
-                cached_events_[name_index_].emplace_back(staj_events::end_array, semantic_tag::none, alloc_);
+                if (name_index_ < column_names_.size()) // as in visit_begin_array: a record may have more fields than there are columns
+                {
+                    cached_events_[name_index_].emplace_back(staj_events::end_array, semantic_tag::none, alloc_);
+                }
                 ++name_index_;
                 --level2_;
             }
